@@ -4,11 +4,11 @@ CONSTANTS
   MaxId = 3
   MaxAcl = 1
   MaxFaults = 1
-  FIX_NamedResult = FALSE
-  FIX_AclWriteFirst = FALSE
-  FIX_DeferredReset = FALSE
-  FIX_LocalRollback = FALSE
-  FIX_DeleteAfter = FALSE
+  FIX_NamedResult = TRUE
+  FIX_AclWriteFirst = TRUE
+  FIX_DeferredReset = TRUE
+  FIX_LocalRollback = TRUE
+  FIX_DeleteAfter = TRUE
   FIX_ValidateFirst = FALSE
   FIX_NotifyAfterCommit = FALSE
   DEV_HeadsOutsideTx = FALSE
